@@ -250,7 +250,7 @@ static void gen_piece(rng_t *r, int depth, int inside_args)
 }
 static void gen_c10(plan_t *p, rng_t *r)
 {
-    int nops = rng_range(r, 1, 12);
+    int nops = rng_range(r, 1, 12 * sim_tier_scale());
     op_t *o;
     plan_knob(p, "alloc.fill", rng_range(r, 0, 4));
     plan_knob(p, "alloc.realloc", rng_range(r, 0, 2));
